@@ -204,6 +204,14 @@ theorem persists (E : Env) (s : PState) (f : Nat) (o : Obj) (a : Addr) (ops : Li
         intro e; simp [call, e] at hc'
       exact call_of_jump E _ f p.repl o (t1.trans ht) (by rw [t1]; exact hne) h1
 
+/-- "keeps holding … until reset", the part that is provable: `persists` under its `Untouched` hypothesis.
+    FULL STATEMENT (not provable, refuted in Findings/C01F.lean `not_holdsUntilOwnReset`): the mock of builder `b` keeps
+    holding under ANY operations of other builders, including their Reset after they were superseded on `f`.  Missing
+    here: histories in which another builder's guard of `f` is unpatched (KNOWN_FINDINGS C01-K2-foreign-reset). -/
+theorem holds_until_reset_partial (E : Env) (s : PState) (f : Nat) (o : Obj) (a : Addr) (ops : List Op) (h : Inv E s)
+    (hu : WellUsedHist E s ops) (hnt : Untouched E f s ops) (hc : call E s f = .enter o a) :
+    call E (run E s ops) f = .enter o a := persists E s f o a ops h hu hnt hc
+
 /-- non-vacuity of `persists`: a mock of function 1 survives a collection with no external roots, a mock and
     un-mock of function 0, and another collection -/
 example :
@@ -230,8 +238,8 @@ theorem inv_cancelM (E : Env) (s : AState) (b f : Nat) (h : Inv E s.p) : Inv E (
     | some g => exact inv_unpatchG E s.p g h
   · exact h
 
-theorem inv_doApply (E : Env) (s : AState) (b f : Nat) (m : Mocker) (v : RValue) (o : Obj) (h : Inv E s.p) :
-    Inv E (doApply E s b f m v o).1.p := by
+theorem inv_doApply (E : Env) (s : AState) (b f : Nat) (m : Mocker) (cw : Bool) (v : RValue) (o : Obj) (h : Inv E s.p) :
+    Inv E (doApply E s b f m cw v o).1.p := by
   obtain ⟨h1, hs⟩ := replace_spec E s.p f v o h
   unfold doApply
   cases hrep : replace E s.p f v o with
@@ -249,12 +257,17 @@ theorem inv_doApply (E : Env) (s : AState) (b f : Nat) (m : Mocker) (v : RValue)
 theorem ainv_step (E : Env) (s : AState) (op : AOp) (h : Inv E s.p) (hu : awellUsed s op) :
     Inv E (astep E s op).p := by
   cases op with
-  | applyCb b f v k code => exact inv_doApply E s b f _ v _ h
-  | ret b f v code res =>
+  | applyCb b f kept v k code => exact inv_doApply E s b f _ _ v _ h
+  | ret b f kept v code res =>
     simp only [astep, astepO]
     split
     · exact h
-    · exact inv_doApply E s b f _ v _ h
+    · exact inv_doApply E s b f _ _ v _ h
+  | whenRet b f kept v code cond res =>
+    simp only [astep, astepO]
+    split
+    · exact h
+    · exact inv_doApply E s b f _ _ v _ h
   | reset b =>
     simp only [astep, astepO]
     generalize List.range E.nf = l
@@ -270,9 +283,16 @@ theorem ainv_run (E : Env) (s : AState) (ops : List AOp) (h : Inv E s.p) (hu : A
   | nil => exact h
   | cons op rest ih => exact ih _ (ainv_step E s op h hu.1) hu.2
 
-/-- **Every history of Apply / Return / Reset / GC by any builders**: a call never crashes into freed memory -/
-theorem api_never_crashes (E : Env) (ops : List AOp) (hu : AWellUsedHist E (ainit E) ops) (f : Nat) :
-    see E (arun E (ainit E) ops) f ≠ .crash := by
+theorem whenInvoke_ne_crash (c : List (Toks × Toks)) (d : List Toks) (a : Toks) : whenInvoke c d a ≠ .crash := by
+  unfold whenInvoke
+  split
+  · simp
+  · split <;> simp
+
+/-- **Every history of Apply / Return / When / Reset / GC by any builders, through fresh or kept handles**: a call never
+    crashes into freed memory, whatever its arguments -/
+theorem api_never_crashes (E : Env) (ops : List AOp) (hu : AWellUsedHist E (ainit E) ops) (f : Nat) (args : Toks) :
+    see E (arun E (ainit E) ops) f args ≠ .crash := by
   have h := ainv_run E (ainit E) ops (inv_init E) hu
   rcases dispatch E _ f h with ⟨hc, _⟩ | ⟨_, o, _, _, _, hc⟩
   · simp [see, hc]
@@ -287,14 +307,18 @@ theorem api_never_crashes (E : Env) (ops : List AOp) (hu : AWellUsedHist E (aini
         simp only
         split
         · simp
-        · split <;> simp
+        · split
+          · exact whenInvoke_ne_crash _ _ _
+          · simp
 
-/-- **Apply(callback).**  After `b.Func(f).Apply(cb_k)` succeeds, in any reachable state, a call of `f` is a
-    closure call of `cb_k`'s own func value: code = its code word, RDX = its address. -/
-theorem apply_runs_callback (E : Env) (s : AState) (b f : Nat) (v : RValue) (k : Nat) (code : Addr) (g : Nat)
-    (h : Inv E s.p) (hok : (astepO E s (.applyCb b f v k code)).2 = .ok g) :
-    call E (astep E s (.applyCb b f v k code)).p f = .enter { code := code, ctx := .cb k } v.ptr ∧
-    see E (astep E s (.applyCb b f v k code)) f = .cb k := by
+/-- **Apply(callback).**  After `h.Apply(cb_k)` succeeds (handle fresh or kept), in any reachable state, a call of `f` is
+    a closure call of `cb_k`'s own func value: code = its code word, RDX = its address — for every argument list —
+    and the mocker no longer owns a `When` nor is canceled ("Apply discards the When"). -/
+theorem apply_runs_callback (E : Env) (s : AState) (b f : Nat) (kept : Bool) (v : RValue) (k : Nat) (code : Addr) (g : Nat)
+    (h : Inv E s.p) (hok : (astepO E s (.applyCb b f kept v k code)).2 = .ok g) :
+    call E (astep E s (.applyCb b f kept v k code)).p f = .enter { code := code, ctx := .cb k } v.ptr ∧
+    (∀ args, see E (astep E s (.applyCb b f kept v k code)) f args = .cb k) ∧
+    (∃ m, (astep E s (.applyCb b f kept v k code)).mockers b f = some m ∧ m.whenRes = none ∧ m.canceled = false) := by
   have hr := rdx_is_closure E s.p f v { code := code, ctx := .cb k }
   simp only [astep, astepO, doApply] at hok ⊢
   cases hrep : replace E s.p f v { code := code, ctx := .cb k } with
@@ -304,27 +328,28 @@ theorem apply_runs_callback (E : Env) (s : AState) (b f : Nat) (v : RValue) (k :
     | ok g' =>
       have hc := hr g' h rfl
       simp only at hc ⊢
-      exact ⟨hc, by simp only [see, setM, hc]⟩
+      refine ⟨hc, fun args => by simp only [see, setM, hc], ?_⟩
+      simp [setM]
     | errSize => cases hok
     | errAlreadyPatched => cases hok
     | illFormed => cases hok
 
-/-- **Return(...)/When install exactly `baseMocker.callback` via `reflect.MakeFunc`** (mocker.go:135,142).
-    When the mocker has no `When` yet, `Return(res...)` makes the call of `f` a closure call of the MakeFunc
-    object bound to this mocker, and what the caller sees is `callback`: the `When`'s result. -/
-theorem stub_is_makefunc (E : Env) (s : AState) (b f : Nat) (v : RValue) (code : Addr) (res : Toks) (g : Nat)
-    (h : Inv E s.p) (hnew : (getM s b f).whenRes = none)
-    (hok : (astepO E s (.ret b f v code res)).2 = .ok g) :
-    call E (astep E s (.ret b f v code res)).p f = .enter { code := code, ctx := .stub b f } v.ptr ∧
-    see E (astep E s (.ret b f v code res)) f = .stubRet [res] := by
+theorem getM_not_canceled_of_fresh (s : AState) (b f : Nat) : (getM s b f false).canceled = false := by
+  unfold getM
+  split
+  · rename_i m _
+    cases hc : m.canceled <;> simp [freshM, hc]
+  · rfl
+
+/-- **Return(...) installs exactly `baseMocker.callback` via `reflect.MakeFunc`** (mocker.go `whens`, `callback`).
+    When the mocker has no `When`, `Return(res...)` makes the call of `f` a closure call of the MakeFunc object bound to
+    this mocker, and what the caller sees is `callback`: the `When`'s result, for every argument list. -/
+theorem stub_is_makefunc (E : Env) (s : AState) (b f : Nat) (kept : Bool) (v : RValue) (code : Addr) (res : Toks) (g : Nat)
+    (h : Inv E s.p) (hnew : (getM s b f kept).whenRes = none)
+    (hok : (astepO E s (.ret b f kept v code res)).2 = .ok g) :
+    call E (astep E s (.ret b f kept v code res)).p f = .enter { code := code, ctx := .stub b f } v.ptr ∧
+    ∀ args, see E (astep E s (.ret b f kept v code res)) f args = .stubRet [res] := by
   have hr := rdx_is_closure E s.p f v { code := code, ctx := .stub b f }
-  have hcan : (getM s b f).canceled = false := by
-    unfold getM
-    split
-    · split
-      · rfl
-      · rename_i hc'; simpa using hc'
-    · rfl
   simp only [astep, astepO, hnew, doApply] at hok ⊢
   cases hrep : replace E s.p f v { code := code, ctx := .stub b f } with
   | mk p1 out =>
@@ -333,33 +358,57 @@ theorem stub_is_makefunc (E : Env) (s : AState) (b f : Nat) (v : RValue) (code :
     | ok g' =>
       have hc := hr g' h rfl
       simp only at hc ⊢
-      refine ⟨hc, ?_⟩
-      simp only [see, hc, callbackOf, setM, and_self, if_true, hcan]
-      simp
+      refine ⟨hc, fun args => ?_⟩
+      simp [see, hc, callbackOf, setM, whenInvoke]
     | errSize => cases hok
     | errAlreadyPatched => cases hok
     | illFormed => cases hok
 
-/-- a later `Return` on the same mocker only hands one more result to the existing `When` (mocker.go:548 →
-    when.go `Return`); nothing is re-applied, the installed closure is unchanged -/
-theorem return_again_appends (E : Env) (s : AState) (b f : Nat) (v : RValue) (code : Addr) (res : Toks) (r0 : List Toks)
-    (hold : (getM s b f).whenRes = some r0) :
-    (astep E s (.ret b f v code res)).p = s.p ∧
-    callbackOf (astep E s (.ret b f v code res)) b f = .stubRet (r0 ++ [res]) := by
-  have hcan : (getM s b f).canceled = false := by
-    unfold getM
-    split
-    · split
-      · rfl
-      · rename_i hc'; simpa using hc'
-    · rfl
-  simp only [astep, astepO, hold, callbackOf, setM, and_self, if_true, hcan]
-  simp
+/-- **Apply, then Return on the same mocker** (the history `Apply(cb) ; Return(res)` through one handle, fix 32dc3bc):
+    the stub is built and installed afresh — every later call receives `res`, none runs the old callback. -/
+theorem return_after_apply_installs (E : Env) (s : AState) (b f : Nat) (kept : Bool) (v v' : RValue) (k : Nat)
+    (code code' : Addr) (res : Toks) (g g' : Nat) (h : Inv E s.p)
+    (hok : (astepO E s (.applyCb b f false v k code)).2 = .ok g)
+    (hok' : (astepO E (astep E s (.applyCb b f false v k code)) (.ret b f kept v' code' res)).2 = .ok g') :
+    ∀ args, see E (astep E (astep E s (.applyCb b f false v k code)) (.ret b f kept v' code' res)) f args = .stubRet [res] := by
+  obtain ⟨_, _, m, hm, hw, hc⟩ := apply_runs_callback E s b f false v k code g h hok
+  have hi : Inv E (astep E s (.applyCb b f false v k code)).p := ainv_step E s _ h trivial
+  have hnew : (getM (astep E s (.applyCb b f false v k code)) b f kept).whenRes = none := by
+    unfold getM; rw [hm]; simp [hc, hw]
+  exact (stub_is_makefunc E _ b f kept v' code' res g' hi hnew hok').2
+
+/-- a later `Return` on a mocker that still owns its `When` only hands one more result to that `When`
+    (`m.when.Return`); nothing is re-applied, the installed closure is unchanged (which element of the sequence a call
+    receives is C05's clause) -/
+theorem return_again_appends (E : Env) (s : AState) (b f : Nat) (kept : Bool) (v : RValue) (code : Addr) (res : Toks)
+    (r0 : List Toks) (hold : (getM s b f kept).whenRes = some r0) :
+    (astep E s (.ret b f kept v code res)).p = s.p ∧
+    (astep E s (.ret b f kept v code res)).mockers b f = some { getM s b f kept with whenRes := some (r0 ++ [res]) } := by
+  simp [astep, astepO, hold, setM]
+
+/-- **Conditional rules are judged on the arguments of the call at hand.**  `When(cond).Return(res)` on a mocker that owns
+    a `When` re-applies nothing; afterwards a call whose arguments equal `cond` and match no earlier rule receives `res`,
+    and every call with other arguments is answered as before.  (The observation is a function of the state and of the
+    argument values of *this* call only — no call leaves anything behind in the model.) -/
+theorem when_rule_added (E : Env) (s : AState) (b f : Nat) (v : RValue) (code : Addr) (cond res : Toks)
+    (m : Mocker) (d : List Toks) (hm : s.mockers b f = some m) (hc : m.canceled = false) (hd : m.whenRes = some d) :
+    (astep E s (.whenRet b f false v code cond res)).p = s.p ∧
+    (m.conds.find? (fun c => c.1 == cond) = none →
+      callbackOf (astep E s (.whenRet b f false v code cond res)) b f cond = .stubRet [res]) ∧
+    (∀ args, args ≠ cond →
+      callbackOf (astep E s (.whenRet b f false v code cond res)) b f args = callbackOf s b f args) := by
+  have hg : getM s b f false = m := by unfold getM; rw [hm]; simp [hc]
+  refine ⟨by simp [astep, astepO, hg, hd, setM], ?_, ?_⟩
+  · intro hnone
+    simp [astep, astepO, hg, hd, setM, callbackOf, hc, whenInvoke, List.find?_append, hnone]
+  · intro args hne
+    have hne' : (cond == args) = false := by
+      simp only [beq_eq_false_iff_ne, ne_eq]; exact fun e => hne e.symm
+    simp [astep, astepO, hg, hd, setM, callbackOf, hm, hc, whenInvoke, List.find?_append, hne']
 
 /-- **Across GC**: a collection, whatever it keeps, changes nothing a caller can see -/
-theorem gc_invisible (E : Env) (s : AState) (keep : Addr → Bool) (f : Nat) (h : Inv E s.p) :
-    see E (astep E s (.gc keep)) f = see E s f := by
-  have h' : Inv E (gc E s.p keep) := inv_gc E s.p keep h
+theorem gc_invisible (E : Env) (s : AState) (keep : Addr → Bool) (f : Nat) (args : Toks) (h : Inv E s.p) :
+    see E (astep E s (.gc keep)) f args = see E s f args := by
   have key : call E (gc E s.p keep) f = call E s.p f := by
     rcases dispatch E s.p f h with ⟨hc, ht⟩ | ⟨p, o, hp, ho, ht, hc⟩
     · rw [hc]; simp [call, gc, ht]
@@ -369,10 +418,13 @@ theorem gc_invisible (E : Env) (s : AState) (keep : Addr → Bool) (f : Nat) (h 
       exact call_of_jump E _ f p.repl o ht hne h3
   simp only [see, astep, astepO, key, callbackOf]
 
-/-- non-vacuity at the API level: Apply by builder 0, drop everything, collect, call → the callback;
-    Reset → the original -/
+/-- non-vacuity at the API level: Apply by builder 0, drop everything, collect, call → the callback; then Return through
+    the same mocker → the stub's value, a conditional rule → judged per call; Reset → the original -/
 example :
-    let s := arun exEnv (ainit exEnv) [.applyCb 0 1 ⟨0, 0xc000012340#64, 19⟩ 7 0x4a0000#64, .gc (fun _ => false)]
-    see exEnv s 1 = .cb 7 ∧ see exEnv (astep exEnv s (.reset 0)) 1 = .orig := by decide
+    let s := arun exEnv (ainit exEnv) [.applyCb 0 1 false ⟨0, 0xc000012340#64, 19⟩ 7 0x4a0000#64, .gc (fun _ => false)]
+    let s2 := arun exEnv s [.ret 0 1 false ⟨0, 0xc000012380#64, 19⟩ 0x45f000#64 ["5"],
+                            .whenRet 0 1 false ⟨0, 0xc0000123c0#64, 19⟩ 0x45f000#64 ["1", "2"] ["9"]]
+    see exEnv s 1 [] = .cb 7 ∧ see exEnv s2 1 ["1", "2"] = .stubRet [["9"]] ∧ see exEnv s2 1 ["1", "3"] = .stubRet [["5"]] ∧
+    see exEnv (astep exEnv s2 (.reset 0)) 1 [] = .orig := by decide
 
 end C01
